@@ -28,6 +28,18 @@ def run(prop, tier, seed, out):
                 raise Broken("Keys.tla violates " + r.violated)
             must_pass(r, "Keys model")
             out.add_tlc(r)
+        # "decrypts to exactly the original bytes / the digest is the HMAC of the original bytes" for every way a value is
+        # reached: the Policy and Tags tables (struct fields, pointer-tagged strings and byte slices in Taggable maps)
+        import fam_encrypt
+        for kind, module, cfg in (("policy", "Policy", "SPECIFICATION Spec\nINVARIANTS Export\nCHECK_DEADLOCK FALSE\n"),
+                                  ("tags", "Tags", "CONSTANT MaxTags = 2\nSPECIFICATION Spec\nINVARIANTS Export\nCHECK_DEADLOCK FALSE\n")):
+            t = run_tlc(scr, "encrypt", module, cfg, "k-" + kind, workers=1, timeout=900, heap="3g")
+            must_pass(t, module)
+            out.add_tlc(t)
+            r = fam_encrypt.replay(vh, scr, kind, t.out_path, seed, "k-" + kind)
+            for m in r["mismatches"] or []:
+                if "C16" in m["props"]:
+                    out.violation("%s: %s: expected %s, observed %s (vector %s)" % (kind, m["what"], json.dumps(m["expected"])[:100], json.dumps(m["observed"])[:100], json.dumps(m["vector"])[:200]), m)
         hp = scr.path("histories.ndjson")
         outp = scr.path("krep.json")
         t0 = time.time()
